@@ -3,6 +3,7 @@ package raftsim
 import (
 	"errors"
 	"fmt"
+	"math/rand"
 	"sort"
 
 	dragonboat "github.com/lni/dragonboat/v4"
@@ -67,6 +68,9 @@ type replica struct {
 	waitingReads map[pb.SystemCtx][]*readWait
 	transferTo   uint64
 
+	inCCStep bool       // a step running inside ApplyConfigChange (Options.StepDuringCC)
+	ccRng    *rand.Rand // own stream: the scheduler's stream is the same with and without the option
+
 	pushedIndex    uint64
 	appliedIndex   uint64
 	confirmedIndex uint64
@@ -93,6 +97,25 @@ func (r *replica) ApplyUpdate(e pb.Entry, result sm.Result, rejected bool, ignor
 
 func (r *replica) ApplyConfigChange(cc pb.ConfigChange, key uint64, rejected bool) error {
 	r.sim.mon.onConfigChange(r, cc, key, rejected)
+	if r.sim.opt.StepDuringCC && !r.inCCStep && r.alive && !r.removed {
+		if r.ccRng == nil {
+			r.ccRng = rand.New(rand.NewSource(r.sim.opt.Seed ^ int64(r.id)<<20 ^ 0x5cc))
+		}
+		if r.ccRng.Intn(4) == 0 {
+			// the apply worker is here (node.ApplyConfigChange, waiting for raftMu) while the step
+			// worker, which holds it, runs an iteration: ticks that piled up, whatever is in the inbox
+			r.inCCStep = true
+			for k := r.ccRng.Intn(2 * int(r.sim.opt.ElectionRTT)); k > 0; k-- {
+				r.inbox = append(r.inbox, pb.Message{Type: pb.LocalTick})
+			}
+			r.sim.mon.count("steps_between_rsm_and_config_change_handover", 1)
+			r.step(cpNone)
+			r.inCCStep = false
+			if !r.alive {
+				return nil
+			}
+		}
+	}
 	if !rejected {
 		if err := r.peer.ApplyConfigChange(cc); err != nil {
 			return err
